@@ -129,9 +129,14 @@ def requestLoop (q : Int) : List Nat → State → List (Nat × Nat) → Option 
       match mapGet s.blocks begin with
       | none => none
       | some len =>
-        let acc' := if s.done.contains begin then acc else (begin, len) :: acc
-        requestLoop q rest
-          { s with remaining := s.remaining.drop 1, pending := setInsert s.pending begin } acc'
+        -- a block that has arrived meanwhile (it was in flight when a choke put it back into `remaining`) is
+        -- dropped from the list: nothing to request, nothing outstanding (fix for finding C10-F3 — it used to
+        -- be entered into `pending`, where nothing ever removed it)
+        if s.done.contains begin then
+          requestLoop q rest { s with remaining := s.remaining.drop 1 } acc
+        else
+          requestLoop q rest
+            { s with remaining := s.remaining.drop 1, pending := setInsert s.pending begin } ((begin, len) :: acc)
 
 /-- `RequestBlocks(queueLength)`; `none` = `panic("cannot get block")`. -/
 def requestBlocks (s : State) (q : Int) : Option (State × List (Nat × Nat)) :=
